@@ -271,7 +271,7 @@ theorem attributes_spec (dt : Option Doctype) (e : QN) (attrs : List Attr) (x : 
     x ∈ elemAttrs false dt e attrs ↔
       (x.2 = true ∧ x.1 ∈ attrs) ∨
       (x.2 = false ∧ ∃ d ∈ attDefsFor dt e, ∃ f vs, d.dflt = .value f vs ∧ x.1 = ⟨d.name, vs⟩ ∧
-         ∀ a ∈ attrs, xmlnsQ a.name = false → a.name ≠ d.name) := by
+         ∀ a ∈ attrs, a.name ≠ d.name) := by
   obtain ⟨a, b⟩ := x
   simp only [elemAttrs, List.mem_append, List.mem_map, Prod.mk.injEq, List.mem_filterMap]
   constructor
@@ -286,22 +286,22 @@ theorem attributes_spec (dt : Option Doctype) (e : QN) (attrs : List Attr) (x : 
           simp only [Option.some.injEq, Prod.mk.injEq] at h
           obtain ⟨rfl, rfl⟩ := h
           refine ⟨rfl, d, hd, f, vs, hv, rfl, ?_⟩
-          intro a ha hx heq
+          intro a ha heq
           apply hnot
-          simp only [List.any_eq_true, List.mem_filter, Bool.not_eq_true', beq_iff_eq]
-          exact ⟨a, ⟨ha, hx⟩, heq⟩
+          simp only [List.any_eq_true, beq_iff_eq]
+          exact ⟨a, ha, heq⟩
         · simp at h
         · cases h
   · rintro (⟨rfl, ha⟩ | ⟨rfl, d, hd, f, vs, hv, rfl, hno⟩)
     · exact Or.inl ⟨a, ha, rfl, rfl⟩
     · right
       refine ⟨d, hd, ?_⟩
-      have : (List.filter (fun a => !xmlnsQ a.name) attrs).any (fun x => x.name == d.name) = false := by
+      have : attrs.any (fun x => x.name == d.name) = false := by
         rw [Bool.eq_false_iff]
         intro hany
-        simp only [List.any_eq_true, List.mem_filter, Bool.not_eq_true', beq_iff_eq] at hany
-        obtain ⟨a, ⟨ha, hx⟩, heq⟩ := hany
-        exact hno a ha hx heq
+        simp only [List.any_eq_true, beq_iff_eq] at hany
+        obtain ⟨a, ha, heq⟩ := hany
+        exact hno a ha heq
       simp [this, hv]
 
 /-- #IMPLIED and #REQUIRED attributes appear only when written -/
